@@ -44,7 +44,7 @@ theorem read_ofBytes (b : Bytes) (n : Nat) :
     simp [h, this]
 
 /-- outcome of `read(n)` on a stream satisfying the invariant, with the closed form of the new state -/
-theorem read_spec' (c : Cursor) (n : Nat) (h : c.Inv) :
+theorem read_closed (c : Cursor) (n : Nat) (h : c.Inv) :
     (c.read n = .ok (c.mem.take n, ⟨c.mem.drop n, c.size - n⟩) ∧ n ≤ c.size) ∨
     (c.read n = .throw .malformedPacket ∧ c.size < n) := by
   unfold Cursor.read Cursor.canRead
@@ -60,7 +60,7 @@ theorem beNat_singleton (x : UInt8) : Cursor.beNat [x] = x.toNat := by simp [Cur
 theorem readU8_spec (c : Cursor) (h : c.Inv) :
     (∃ x, c.mem = x :: c.mem.drop 1 ∧ c.readU8 = .ok (x.toNat, ⟨c.mem.drop 1, c.size - 1⟩) ∧ 1 ≤ c.size) ∨
     (c.readU8 = .throw .malformedPacket ∧ c.size = 0) := by
-  rcases read_spec' c 1 h with ⟨he, hs⟩ | ⟨he, hs⟩
+  rcases read_closed c 1 h with ⟨he, hs⟩ | ⟨he, hs⟩
   · left
     have hm : 1 ≤ c.mem.length := by simp only [Cursor.Inv] at h; omega
     cases hmem : c.mem with
@@ -72,7 +72,7 @@ theorem readU8_spec (c : Cursor) (h : c.Inv) :
   · right
     exact ⟨by simp [Cursor.readU8, Cursor.readBE, he, bind, Out.bind], by omega⟩
 
-theorem skip_spec' (c : Cursor) (n : Nat) (hn : n ≤ c.size) : c.skip n = .ok ⟨c.mem.drop n, c.size - n⟩ := by
+theorem skip_closed (c : Cursor) (n : Nat) (hn : n ≤ c.size) : c.skip n = .ok ⟨c.mem.drop n, c.size - n⟩ := by
   unfold Cursor.skip
   have : ¬ n > c.size := by omega
   simp [this]
